@@ -139,9 +139,9 @@ double Binomial_Coefficient(int n, int k)
 	}
 	else if(n < k)
 		return 0;
-	else if(n > 170)
+	else
 	{
-		// n! overflows: build C(n,m), m = min(k,n-k), as the product of (n-m+i)/i, i = 1..m. After each factor the value is the
+		// Build C(n,m), m = min(k,n-k), as the product of (n-m+i)/i, i = 1..m. After each factor the value is the
 		// binomial coefficient C(n-m+i,i), so dividing by i/gcd first and multiplying afterwards keeps every intermediate an
 		// integer: exact as long as it is representable, and symmetric in k <-> n-k by construction.
 		int m			   = std::min(k, n - k);
@@ -160,8 +160,6 @@ double Binomial_Coefficient(int n, int k)
 		}
 		return static_cast<double>(result);
 	}
-	else
-		return floor(0.5 + Factorial(n) / Factorial(k) / Factorial(n - k));
 }
 
 // Logarithmic gamma function
